@@ -22,14 +22,11 @@ def parseTok (t : String) : Option NumTok :=
 def parseToks (s : String) : Option (List NumTok) :=
   if s.isEmpty then some [] else (s.splitOn ",").mapM parseTok
 
+/-- `name:tok,tok` — the option text as written in the input (without the dash), resolved by the model -/
 def parseDelLine (w : String) : Option DelLine :=
-  if w == "all" then some .all else
   match w.splitOn ":" with
-  | [k, toks] =>
-    if k == "cell" then (parseToks toks).map DelLine.cell
-    else match parseKind k, parseToks toks with
-      | some kk, some ts => some (.item kk ts)
-      | _, _ => none
+  | [name] => resolveDelLine name []
+  | [name, toks] => (parseToks toks).bind (resolveDelLine name)
   | _ => none
 
 def parseBlock (w : List String) : Option Block :=
@@ -56,7 +53,9 @@ def parseBlock (w : List String) : Option Block :=
     let src ← src.toInt?; let a ← a.toInt?; let b ← b.toInt?
     if k == "cell" then pure (.copy none src a b) else do let kk ← parseKind k; pure (.copy (some kk) src a b)
   | "del" :: ls => do let ls ← ls.mapM parseDelLine; pure (.delete ls)
-  | "cells" :: ts => do let ts ← ts.mapM parseTok; pure (.runCells ts)
+  | "cells" :: opt :: ts => do
+    let ts ← ts.mapM parseTok
+    if resolveCells opt then pure (.runCells ts) else none
   | "emix" :: k :: n :: m :: comps => do
     let kk ← parseKind k; let n ← n.toInt?; let m ← m.toInt?; let cs ← comps.mapM String.toInt?
     pure (.entityMix kk n m cs)
@@ -91,6 +90,10 @@ def run : IO Unit := do
         out.putStrLn "F ok"
         for (k, n, tok) in visible sd.maps do
           out.putStrLn s!"E {k.name} {n} {tok}"
+        -- entries DUMP does not show (negative numbers) but list_components reads
+        for k in componentKinds do
+          for (n, e) in sd.maps k do
+            if n < 0 then out.putStrLn s!"H {k.name} {n} {e.content}"
       for (tok, p) in sd.prov.reverse.drop printed do
         out.putStrLn s!"T {tok} {p}"
       printed := sd.prov.length
